@@ -4,11 +4,108 @@ Random histories over a pool of <= 6 live databases; after EVERY step EVERY live
 (CSR buffers walked row by row, db[i] for every i, names, name index incl. empty entries, property arrays with dtype kind,
 == against every live database) and compared inside Coq with the model's state (`history_ok`).  Reads are additionally
 checked directly on the implementation: an operation other than add / set_prop / update_props must leave every database
-that was alive before it observably identical."""
+that was alive before it observably identical.
+
+Three streams (the second and third were added by the coverage audit, work/coverage_C05.md; generators in props/c05_gen.py):
+  1. dbgen.History          the shared generator (also used by C07/C16/C17)
+  2. c05_gen.History5       wider value pools and the call forms / argument containers / dtypes / matrix formats / file
+                            extensions / fingerprint constructors / caller-side aliasing / odd read keys the first lacks
+  3. c05_gen.directed_*     every way to derive a database, followed by alternating changes of source and derived database
+  4. c05_gen.reads_all_*    every read-only call the model has no operation for, on unsorted / explicit-zero sources and their views
+  5. c05_gen.reuse_*        the caller's fingerprint objects added, changed, and added again (same and other database)"""
 import core
 import dbgen
+from props import c05_gen
 
 MUTATORS = ('add', 'add_fault', 'set_prop', 'update_props')
+
+
+def _snapshot(h):
+    if not h.steps:
+        return {}, {}
+    live = h.steps[-1]['live']
+    hs = [x['h'] for x in live]
+    return ({lo['h']: (dbgen.db_lit(lo['db']), str(lo['items'])) for lo in live},
+            {lo['h']: dict(zip(hs, lo['eq'])) for lo in live})
+
+
+def check_reads(ctx, h, before, eq_before):
+    """reads_do_not_change / reads_keep_eq decided on the implementation directly, for the step just recorded."""
+    st = h.steps[-1]
+    if st['tag'] in MUTATORS:
+        return False
+    rf = getattr(h, 'read_fail', None)
+    if rf is not None and not getattr(h, 'read_fail_reported', False):
+        h.read_fail_reported = True
+        ctx.fail('database(s) %s changed by the read-only call %s (outcome: %s) on database %d' % (rf['changed_handles'], rf['member'], rf['outcome'], rf['called_on_handle']),
+                 {'ops': dbgen.descs_of(h.steps), 'read': rf, 'last_steps': dbgen.steps_json(h.steps)[-2:]},
+                 finding_key='read-mutates:reads:' + rf['member'].split(':')[0])
+        return True
+    for lo in st['live']:
+        if lo['h'] in before and (dbgen.db_lit(lo['db']), str(lo['items'])) != before[lo['h']]:
+            ctx.fail('database %d changed by the read-only operation %s' % (lo['h'], st['tag']),
+                     {'ops': dbgen.descs_of(h.steps), 'changed_handle': lo['h'], 'last_steps': dbgen.steps_json(h.steps)[-2:]},
+                     finding_key='read-mutates:' + st['tag'])
+            return True
+        if lo['h'] in eq_before:
+            now = dict(zip([x['h'] for x in st['live']], lo['eq']))
+            if any(g in now and now[g] != v for g, v in eq_before[lo['h']].items()):
+                ctx.fail('== between two databases flipped after the read-only operation %s' % st['tag'],
+                         {'ops': dbgen.descs_of(h.steps), 'handle': lo['h'], 'last_steps': dbgen.steps_json(h.steps)[-2:]},
+                         finding_key='read-flips-eq:' + st['tag'])
+                return True
+    return False
+
+
+def check_all_steps(ctx, h):
+    """The same direct check over a history that was executed in one go (directed histories)."""
+    bad = False
+    full = h.steps
+    for i in range(1, len(full)):
+        if bad:
+            break
+        h.steps = full[:i]
+        before, eq_before = _snapshot(h)
+        h.steps = full[:i + 1]
+        bad = check_reads(ctx, h, before, eq_before)
+    h.steps = full
+    return bad
+
+
+def account(ctx, dist, h, stream):
+    dist['histories'] += 1
+    dist['by_stream'][stream] = dist['by_stream'].get(stream, 0) + 1
+    dist['steps'] += len(h.steps)
+    dist['bits'][str(h.bits)] = dist['bits'].get(str(h.bits), 0) + 1
+    dist['columns'][len(h.schema)] = dist['columns'].get(len(h.schema), 0) + 1
+    for k, v in h.opcount.items():
+        dist['ops'][k] = dist['ops'].get(k, 0) + v
+    for k, v in getattr(h, 'v5', {}).items():
+        dist['new_input_classes'][k] = dist['new_input_classes'].get(k, 0) + v
+    for st in h.steps:
+        dist['results'][st['res'][0]] += 1
+        dist['max_live'] = max(dist['max_live'], len(st['live']))
+        ctx.count((st['lit'][:300], len(st['live']), str(st['op'].get('v5', ''))[:200]),
+                  st['res'][0] == 'ok' or st['tag'] in ('subset', 'getitem_str', 'getitem_int'))
+    last = h.steps[-1]['live']
+    for lo in last:
+        d = lo['db']
+        dist['kinds_of_live_dbs'][d['kind']] = dist['kinds_of_live_dbs'].get(d['kind'], 0) + 1
+        if any([j for j, _ in r] != sorted(j for j, _ in r) or any(v == 0 for _, v in r) for r in d['rows']):
+            dist['unsorted_or_explicit_zero_rows_seen'] += 1
+        if any(v < 0 for r in d['rows'] for _, v in r):
+            dist['negative_values_seen'] += 1
+        if d['bits'] is not None and not d['rows']:
+            dist['zero_row_matrices_seen'] += 1
+        if any(n is None for n in d['names']):
+            dist['none_names_seen'] += 1
+        if len(set(d['names'])) < len(d['names']):
+            dist['duplicate_names_seen'] += 1
+        dist['max_rows'] = max(dist['max_rows'], len(d['rows']))
+    objs = [id(h.pool[g]) for g in h.live]
+    if len(set(objs)) < len(objs):
+        dist['aliased_handles_seen'] += 1
+    return last
 
 
 def run(ctx):
@@ -17,85 +114,110 @@ def run(ctx):
     rng = ctx.rng
     found_input = False
     hists = {}
-    dist = {'histories': 0, 'steps': 0, 'ops': {}, 'bits': {}, 'kinds_of_live_dbs': {}, 'results': {'ok': 0, 'err': 0},
-            'columns': {}, 'max_live': 0, 'unsorted_or_explicit_zero_rows_seen': 0, 'none_names_seen': 0, 'duplicate_names_seen': 0,
-            'aliased_handles_seen': 0}
-    # thorough: 1500 histories, 15% of them long (measured: 3000 with 30% long ones needs > 40 min on a loaded 16-core machine)
+    dist = {'histories': 0, 'by_stream': {}, 'steps': 0, 'ops': {}, 'bits': {}, 'kinds_of_live_dbs': {}, 'results': {'ok': 0, 'err': 0},
+            'columns': {}, 'max_live': 0, 'max_rows': 0, 'unsorted_or_explicit_zero_rows_seen': 0, 'negative_values_seen': 0, 'zero_row_matrices_seen': 0,
+            'none_names_seen': 0, 'duplicate_names_seen': 0, 'aliased_handles_seen': 0, 'new_input_classes': {}}
+
+    def drive(h, key, stream, nsteps):
+        nonlocal found_input
+        h.warmup()
+        for _ in range(nsteps):
+            before, eq_before = _snapshot(h)
+            h.rand_step()
+            if check_reads(ctx, h, before, eq_before):
+                found_input = True
+                break
+        hists[key] = h
+        return account(ctx, dist, h, stream)
+
+    # ---- stream 1: the shared generator.  thorough: 1500 histories, 15% of them long (measured: 3000 with 30% long ones needs > 40 min on a loaded 16-core machine)
     nh = ctx.n(200, 1500)
     for i in range(nh):
         h = dbgen.History(rng)
-        h.warmup()
-        nsteps = rng.randint(6, 15) if ctx.quick or rng.random() < 0.85 else rng.randint(16, 60)
-        for _ in range(nsteps):
-            before = {lo['h']: (dbgen.db_lit(lo['db']), str(lo['items'])) for lo in h.steps[-1]['live']} if h.steps else {}
-            eq_before = {lo['h']: dict(zip([x['h'] for x in h.steps[-1]['live']], lo['eq'])) for lo in h.steps[-1]['live']} if h.steps else {}
-            h.rand_step()
-            st = h.steps[-1]
-            if st['tag'] not in MUTATORS:
-                # reads_do_not_change, decided on the implementation directly
-                for lo in st['live']:
-                    if lo['h'] in before and (dbgen.db_lit(lo['db']), str(lo['items'])) != before[lo['h']]:
-                        found_input = True
-                        ctx.fail('database %d changed by the read-only operation %s' % (lo['h'], st['tag']),
-                                 {'ops': dbgen.descs_of(h.steps), 'changed_handle': lo['h'], 'last_steps': dbgen.steps_json(h.steps)[-2:]},
-                                 finding_key='read-mutates:' + st['tag'])
-                        break
-                    if lo['h'] in eq_before:
-                        now = dict(zip([x['h'] for x in st['live']], lo['eq']))
-                        if any(g in now and now[g] != v for g, v in eq_before[lo['h']].items()):
-                            found_input = True
-                            ctx.fail('== between two databases flipped after the read-only operation %s' % st['tag'],
-                                     {'ops': dbgen.descs_of(h.steps), 'handle': lo['h'], 'last_steps': dbgen.steps_json(h.steps)[-2:]},
-                                     finding_key='read-flips-eq:' + st['tag'])
-                            break
-        hists['c05-%d' % i] = h
-        dist['histories'] += 1
-        dist['steps'] += len(h.steps)
-        dist['bits'][str(h.bits)] = dist['bits'].get(str(h.bits), 0) + 1
-        dist['columns'][len(h.schema)] = dist['columns'].get(len(h.schema), 0) + 1
-        for k, v in h.opcount.items():
-            dist['ops'][k] = dist['ops'].get(k, 0) + v
-        for st in h.steps:
-            dist['results'][st['res'][0]] += 1
-            dist['max_live'] = max(dist['max_live'], len(st['live']))
-            ctx.count((st['lit'][:300], len(st['live'])), st['res'][0] == 'ok' or st['tag'] in ('subset', 'getitem_str', 'getitem_int'))
-        last = h.steps[-1]['live']
-        for lo in last:
-            d = lo['db']
-            dist['kinds_of_live_dbs'][d['kind']] = dist['kinds_of_live_dbs'].get(d['kind'], 0) + 1
-            if any([j for j, _ in r] != sorted(j for j, _ in r) or any(v == 0 for _, v in r) for r in d['rows']):
-                dist['unsorted_or_explicit_zero_rows_seen'] += 1
-            if any(n is None for n in d['names']):
-                dist['none_names_seen'] += 1
-            if len(set(d['names'])) < len(d['names']):
-                dist['duplicate_names_seen'] += 1
-        objs = [id(h.pool[g]) for g in h.live]
-        if len(set(objs)) < len(objs):
-            dist['aliased_handles_seen'] += 1
-        if i < 4:
+        last = drive(h, 'c05-%d' % i, 'shared', rng.randint(6, 15) if ctx.quick or rng.random() < 0.85 else rng.randint(16, 60))
+        if i < 3:
             ctx.sample({'history': 'c05-%d' % i, 'ops': [s['op'].get('op') for s in h.steps], 'results': [s['res'][1] if s['res'][0] == 'err' else 'ok' for s in h.steps],
                         'live_at_end': [lo['h'] for lo in last]})
-    nbad = dbgen.check_histories(ctx, hists, 'C05 histories', finding_key_of=lambda h, st: 'model-vs-impl:%s' % (st['tag'] if st else 'history'))
+    # ---- stream 2: wider pools and call forms
+    n5 = ctx.n(160, 1200)
+    for i in range(n5):
+        h = c05_gen.History5(rng)
+        last = drive(h, 'c05x-%d' % i, 'extended', rng.randint(6, 15) if ctx.quick or rng.random() < 0.85 else rng.randint(16, 50))
+        if i < 2:
+            ctx.sample({'history': 'c05x-%d' % i, 'ops': [(s['op'].get('op'), s['op'].get('v5')) for s in h.steps],
+                        'results': [s['res'][1] if s['res'][0] == 'err' else 'ok' for s in h.steps], 'live_at_end': [lo['h'] for lo in last]})
+    # ---- stream 3: every derivation, then source and derived database changed alternately
+    nd = 0
+    for rep in range(ctx.n(1, 4)):
+        for key, h in c05_gen.directed_histories(rng):
+            found_input = check_all_steps(ctx, h) or found_input
+            hists['c05d-%d-%s' % (rep, key)] = h
+            account(ctx, dist, h, 'directed')
+            nd += 1
+            if nd == 1:
+                ctx.sample({'history': 'c05d-%d-%s' % (rep, key), 'ops': [s['op'].get('op') for s in h.steps]})
+    # ---- stream 4: every read-only call without a model operation, on unsorted / explicit-zero sources and on databases sharing buffers with them
+    for rep in range(ctx.n(1, 4)):
+        for kind in dbgen.KINDS:
+            for bits in (16, 1024):
+                h = c05_gen.reads_all_history(rng, kind, bits)
+                found_input = check_all_steps(ctx, h) or found_input
+                hists['c05r-%d-%s-%d' % (rep, kind, bits)] = h
+                account(ctx, dist, h, 'reads_all')
+    # ---- stream 5: the caller's fingerprint objects added, changed, added again
+    for rep in range(ctx.n(2, 8)):
+        for kind in dbgen.KINDS:
+            for bits in (16, 2 ** 32):
+                h = c05_gen.reuse_history(rng, kind, bits)
+                hists['c05u-%d-%s-%d' % (rep, kind, bits)] = h
+                account(ctx, dist, h, 'reuse')
+    nbad = c05_gen.check_histories5(ctx, hists, 'C05 histories', finding_key_of=lambda h, st: 'model-vs-impl:%s' % (st['tag'] if st else 'history'))
     found_input = found_input or nbad > 0
     tot = float(sum(dist['ops'].values()) or 1)
     dist['op_frequencies'] = {k: round(v / tot, 3) for k, v in sorted(dist['ops'].items())}
     print('C05 operation frequencies: ' + ', '.join('%s %.1f%%' % (k, 100 * v) for k, v in dist['op_frequencies'].items()))
     ctx.coverage['rule'] = ('one evaluation = one step of a history (operation + re-observation of every live database on both sides); a step is '
                             'non-trivial when the operation succeeded or is a lookup/subset (absent names raise); distinct by (operation literal, '
-                            'number of live databases). %d histories of 6-15 (thorough: up to 60) operations after a 1-2 database warm-up.' % nh)
+                            'number of live databases, call form). %d histories of the shared generator and %d of the extended one, 6-15 (thorough: up to 60) '
+                            'operations after a 1-2 database warm-up; %d directed derive-then-alternate histories of 18 operations; %d histories running every member of the read bundle.' % (nh, n5, nd, dist['by_stream'].get('reads_all', 0)))
     ctx.coverage['input_distribution'] = dist
     ctx.assumptions += ['SciPy/NumPy containers (vstack, csr_matrix, np.append, fancy indexing, sum_duplicates, pickle) behave as modelled; exercised by the correspondence only',
                         'model domain: CSR rows given to from_array have no duplicate column (unsorted columns and explicit zeros are covered); counts < 2^16; '
-                        'names are None or non-empty strings; property columns keep one dtype kind (an empty column is declared with its dtype); every count handed in is in [0, 2^16) - sums formed by fold may exceed it and wrap, as the model does; concat of only-empty databases (vstack of None blocks) excluded',
-                        'reload = savez+load of a .fpz file or the deprecated save+load of a .fps.bz2 file in the run work directory; numpy archive / pickle / bz2 are modelled as lossless (C08 owns the file format)',
+                        'names are None or non-empty strings; property columns keep one dtype kind (an empty column is declared with its dtype); every count handed in is in [0, 2^16) - sums formed by fold may exceed it and wrap, as the model does; concat of only-empty databases (vstack of None blocks) excluded; '
+                        'negative float values never meet a uint16 cast (numpy wraps, the model truncates); get_density and similarity of a matrix with zero rows excluded (numpy 0/0)',
+                        'reload = savez+load of a .fpz file (also: name given without extension) or the deprecated save+load of a .fps / .fps.gz / .fps.bz2 file in the run work directory; numpy archive / pickle / gzip / bz2 are modelled as lossless (C08 owns the file format)',
                         'similarity calls are executed for their effect on the databases (none); their values belong to C06. Product-based measures '
                         'and unsorted CSR input only for bits <= 4096 (scipy allocates O(bits) work arrays: 32-100 GiB at 2^32)',
                         'buffer sharing of derived databases as measured with np.shares_memory on this tree (header of Model/Db.v); the names list, the '
-                        'index dict and the props dict are per object (never shared between distinct objects)']
+                        'index dict and the props dict are per object (never shared between distinct objects)',
+                        'the `reads` bundle (calls without a model operation: odd keys, str/repr, savetxt, changes to returned fingerprints, derived databases changed and dropped, ...) '
+                        'is recorded as `OpLen`: the model states that nothing changes; outcomes of those calls (exception classes) are not compared']
     if not ok:
         core.report_broken_proof(ctx, res, found_input)
 
 
 def replay(ctx, path):
-    import props.c16 as c16
-    return c16.replay(ctx, path)
+    import json
+    d = json.load(open(path))
+    case = d.get('case', {})
+    ops = case.get('ops') or [s['op'] for s in case.get('minimal_history', [])]
+    print(json.dumps({k: v for k, v in d.items() if k != 'case'}, indent=1))
+    if 'read' in case:
+        print('read-only member that changed a database:', json.dumps(case['read']))
+    if not ops:
+        print(json.dumps(case, indent=1)[:4000])
+        return 0
+    dbgen.set_workdir(ctx.workdir)
+    h = c05_gen.replay_descs5(ops)
+    for st in h.steps:
+        print(st['op'].get('op'), {k: v for k, v in st['op'].items() if k not in ('op', 'fps', 'rows', '_ok', 'members')}, '->', st['res'][1] if st['res'][0] == 'err' else 'ok')
+    if h.read_fail:
+        print('implementation: read-only call %s changed database(s) %s' % (h.read_fail['member'], h.read_fail['changed_handles']))
+    idx, raw = dbgen.first_divergence(ctx, h.steps)
+    print('model: first diverging step =', idx)
+    bad = idx is None or idx >= 0 or bool(h.read_fail)
+    import shutil
+    shutil.rmtree(ctx.workdir, ignore_errors=True)
+    if bad:
+        print('VIOLATION property=%s replay=%s' % (ctx.pid, path))
+    return 1 if bad else 0
